@@ -171,8 +171,24 @@ fn hw(h: u32, w: u32) -> Param {
 }
 
 /// the breadth lattice shared by C01 / C07
-fn breadth(ctx: &Ctx, devs: Vec<Act>, thorough: bool) -> Vec<LifeCfg> {
+/// counters beyond 32 bits (seven 32-leaf levels: 35 bits) and a key with more than 2^64 leaves
+/// (65 bits: the 64-bit counter can never exhaust it, the remaining lifetime saturates)
+pub fn high_counter_cfgs(ctx: &Ctx) -> Vec<LifeCfg> {
     let mut v = vec![];
+    let p7: Vec<Param> = (0..7).map(|_| hw(5, 4)).collect();
+    for (s, ms) in [((1u64 << 32) - 2, Some(4u64)), ((1u64 << 32) + 163, Some(2)), ((1u64 << 35) - 2, None)] {
+        v.push(cfg(ctx, Hid::S32, p7.clone(), s, ms, 0, vec![]));
+    }
+    let mut tall: Vec<Param> = (0..5).map(|_| hw(10, 1)).collect();
+    tall.extend((0..3).map(|_| hw(5, 1)));
+    for (s, ms) in [(0u64, Some(3u64)), (u64::MAX - 3, Some(2))] {
+        v.push(cfg(ctx, Hid::S16, tall.clone(), s, ms, 0, vec![]));
+    }
+    v
+}
+
+fn breadth(ctx: &Ctx, devs: Vec<Act>, thorough: bool) -> Vec<LifeCfg> {
+    let mut v = high_counter_cfgs(ctx);
     // all 6 hashes x 4 W on [2,2], whole lifetime
     for h in ALL_HASHES {
         for w in [1, 2, 4, 8] {
@@ -280,7 +296,11 @@ pub fn run_c01(ctx: &Ctx) -> (&'static str, Map<String, Value>) {
     let (agg, labels) = run_lattice(ctx, cfgs);
     ctx.assume("seeds and message bytes are parameters of the run (VERIF_SEED); lengths, block edges, counters and parameter shapes are enumerated");
     ctx.assume("tree heights 20 and 25 are never instantiated (infeasible); h=10 windows in the quick tier, one h=15 tree (first/last signatures) in the thorough tier only");
-    ("model_checking", coverage(ctx, &agg, &labels, RULE, true))
+    let mut m = coverage(ctx, &agg, &labels, RULE, true);
+    let (mc, md) = crate::props_msglen::msglen_sweep(ctx);
+    m.insert("message_length_sweep".into(), json!({"cases": mc, "rule": md}));
+    crate::props_build::fv_cross_or_exit(ctx, &mut m);
+    ("model_checking", m)
 }
 
 pub fn run_c07(ctx: &Ctx) -> (&'static str, Map<String, Value>) {
@@ -310,7 +330,11 @@ pub fn run_c07(ctx: &Ctx) -> (&'static str, Map<String, Value>) {
     }
     let (agg, labels) = run_lattice(ctx, cfgs);
     ctx.assume("the randomizer C of an upper-level signature is pinned to the implementation's current derivation (child seed/I, parent leaf number); RFC 8554 leaves C open -- RFC validity is judged by the independent verifier");
-    ("model_checking", coverage(ctx, &agg, &labels, RULE, true))
+    let mut m = coverage(ctx, &agg, &labels, RULE, true);
+    let (mc, md) = crate::props_msglen::msglen_sweep(ctx);
+    m.insert("message_length_sweep".into(), json!({"cases": mc, "rule": md}));
+    crate::props_build::fv_cross_or_exit(ctx, &mut m);
+    ("model_checking", m)
 }
 
 pub fn run_c03(ctx: &Ctx) -> (&'static str, Map<String, Value>) {
@@ -409,6 +433,7 @@ pub fn run_c04(ctx: &Ctx) -> (&'static str, Map<String, Value>) {
     ctx.assume("the callback snapshots are taken inside the call; a signature value cannot exist for the caller before the call returns");
     let mut cov = coverage(ctx, &agg, &labels, RULE, true);
     cov.insert("fault_alphabet".into(), json!(devs.iter().map(|d| format!("{:?}", d)).collect::<Vec<_>>()));
+    crate::props_build::fv_cross_or_exit(ctx, &mut cov);
     ("model_checking", cov)
 }
 
@@ -536,6 +561,7 @@ pub fn c05_life_cfgs(ctx: &Ctx) -> Vec<LifeCfg> {
         cfgs.push(cfg(ctx, Hid::S24, vec![hw(5, 4), hw(5, 4)], s, ms, 0, vec![]));
     }
     cfgs.extend(length_boundary_cfgs(ctx, vec![sign_act(0, Entry::Key, Cb::Accept, AuxMode::None)]));
+    cfgs.extend(high_counter_cfgs(ctx));
     // the longest signatures: 8 levels of W1 on a 32-byte hash (69 868 bytes), and 7 levels (61 128 bytes)
     for l in [7usize, 8] {
         let params: Vec<Param> = (0..l).map(|_| hw(2, 1)).collect();
